@@ -1233,7 +1233,7 @@ Theorem wraparound_spec_proof : forall p e m a b s, 0 < p_w p -> m_stack m = b :
   exec_builtin p e m CODE_NEGATE = continue (set_stack m (wrap w (- b) :: a :: s)) /\
   exec_builtin p e m CODE_ADD1 = continue (set_stack m (wrap w (b + 1) :: a :: s)) /\
   exec_builtin p e m CODE_SUB1 = continue (set_stack m (wrap w (b - 1) :: a :: s)) /\
-  exec_builtin p e m CODE_ABS = continue (set_stack m (wrap w (Z.abs b) :: a :: s)) /\
+  exec_builtin p e m CODE_ABS = continue (set_stack m (wrap 32 (Z.abs (wrap 32 b)) :: a :: s)) /\
   exec_builtin p e m CODE_LSHIFT = continue (set_stack m (wrap w (a * 2 ^ (b mod w)) :: s)) /\
   (* where wrap w z is THE representative of z modulo 2^w in the signed range of a cell *)
   (forall z, - 2 ^ (w - 1) <= wrap w z < 2 ^ (w - 1) /\ (exists k, wrap w z = z + k * 2 ^ w) /\
@@ -1577,10 +1577,87 @@ Proof.
     { unfold depth, zlen. cbn [m_frames set_frames]. rewrite Ef. cbn [length]. lia. }
     rewrite Hdep. destruct (abs_depth dd =? depth m2 - 1); [discriminate|]. reflexivity.
   - destruct (depth m2 =? t); reflexivity.
-  - destruct (depth m2 =? t) eqn:Ed; [|reflexivity].
-    (* segment_done faults: both variants fault, unless the patched one stops first at the target depth *)
-    unfold segment_done in Es. destruct (m_frames m2) as [|[wh ip] fr] eqn:Ef.
-    + (* no frame: depth 0 = t; the pinned tree reads current_where_[-1] *) discriminate H.
-    + discriminate H.
+  - destruct (depth m2 =? t); [discriminate|reflexivity].
   - exfalso. eapply segment_done_noof; eassumption.
+Qed.
+
+Lemma irun_pinned_clean : forall f p e t m, step_clean f p e t m = true ->
+  internal_run f false true p e t m = internal_run f true true p e t m.
+Proof.
+  induction f as [|f IH]; intros p e t m H; [reflexivity|].
+  rewrite !IR_S. cbn [step_clean] in H.
+  destruct (depth m =? t); [reflexivity|].
+  destruct (segment_done p m) as [[|]|c|]; try reflexivity.
+  - destruct (pop_incr m) as [[[|] m1]|c|]; try reflexivity. apply IH. assumption.
+  - unfold exec_instr.
+    destruct (fetch_instr p m) as [[m1|bc m1]|c|]; try reflexivity.
+    + cbn [continue]. apply IH. assumption.
+    + destruct (bc =? CODE_EXIT) eqn:Eb; [discriminate|].
+      rewrite (exec_op_pinned_non_exit true p e m1 bc Eb).
+      destruct (exec_op true true p e m1 bc) as [[[|] m2]|c|]; try reflexivity.
+      rewrite (single_tail_plain p t m2 H).
+      pose proof (single_tail_shape true p t m2 _ eq_refl) as Hs.
+      destruct (single_tail true p t m2) as [[[|] m3]|c|]; try reflexivity; contradiction.
+Qed.
+
+Lemma api_step_pinned_clean : forall p e m, api_step_clean p e m = true -> api_step false p e m = api_step true p e m.
+Proof.
+  intros p e m H. unfold api_step, run_and_pop, api_step_clean in *.
+  destruct (negb (m_ready m)); [reflexivity|].
+  destruct (m_targets m) as [|t ts]; [reflexivity|].
+  destruct (negb (m_err m =? E_none)); [reflexivity|].
+  rewrite (irun_pinned_clean _ _ _ _ _ H). reflexivity.
+Qed.
+
+Lemma iter_step_S : forall fixed p e k m,
+  iter_step fixed p e (S k) m = match apply_seg fixed p e GStep m with Ok m1 => iter_step fixed p e k m1 | other => other end.
+Proof. reflexivity. Qed.
+
+Lemma clean_run_stuck : forall k p e m, can_go m = false -> clean_run k p e m = true.
+Proof. intros k p e m H. destruct k; [reflexivity|]. cbn [clean_run]. rewrite H. reflexivity. Qed.
+
+Lemma iter_pinned_clean : forall k p e m, clean_run k p e m = true -> iter_step false p e k m = iter_step true p e k m.
+Proof.
+  induction k as [|k IH]; intros p e m H; [reflexivity|].
+  rewrite !iter_step_S. cbn [clean_run] in H. unfold apply_seg.
+  destruct (can_go m) eqn:Eg.
+  - apply andb_prop in H. destruct H as [Hc Hr]. rewrite (api_step_pinned_clean p e m Hc).
+    destruct (api_step true p e m); try reflexivity. apply IH. assumption.
+  - apply IH. apply clean_run_stuck. assumption.
+Qed.
+
+Lemma complete_unpatched : forall n f fixed p e m, complete n f fixed p e m = complete n f true p e m.
+Proof.
+  induction n as [|n IH]; intros; [reflexivity|]. rewrite !complete_S.
+  destruct (can_go m); [|reflexivity].
+  assert (Hr : api_resume f fixed p e m = api_resume f true p e m).
+  { unfold api_resume, run_and_pop. destruct (negb (m_ready m)); [reflexivity|].
+    destruct (m_targets m); [reflexivity|]. destruct (negb (m_err m =? E_none)); [reflexivity|].
+    rewrite run_mode_unpatched_proof. reflexivity. }
+  rewrite Hr. destruct (api_resume f true p e m); try reflexivity. apply IH.
+Qed.
+
+(* (a) on the PINNED tree, under the precise side condition: no step boundary falls at the end of a do-loop body
+   (or would pop below the target depth) and no `exit` is single-stepped — `clean_run` checks exactly that along the
+   trajectory.  PARTIAL in that sense; without the side condition the statement is refuted (see above). *)
+Theorem run_is_iterated_step_pinned_partial_proof : forall p e n f m mf,
+  complete n f false p e m = Ok mf ->
+  exists k, forall k', clean_run (k + k') p e m = true -> iter_step false p e (k + k') m = Ok mf.
+Proof.
+  intros p e n f m mf H. rewrite complete_unpatched in H.
+  destruct (run_is_iterated_step_stable_proof p e n f m mf H) as [_ [k Hk]].
+  exists k. intros k' Hc. rewrite (iter_pinned_clean _ _ _ _ Hc). apply Hk.
+Qed.
+
+(* non-vacuity: a program with begin ... until, a user word, variables and a pause, stepped cleanly to its end *)
+Definition prog_clean := compile 64 16 16 (bytes ": w 1+ ; variable v 3 v ! 0 begin w pause -1 v +! v @ 0= until"%string).
+Example clean_run_example :
+  exists p m0 mf, prog_clean = COk p /\ api_begin p (mkEnv []) (init_machine p) = Ok m0 /\
+    complete 9 200 false p (mkEnv []) m0 = Ok mf /\ m_stack mf = [3] /\
+    clean_run 60 p (mkEnv []) m0 = true /\ iter_step false p (mkEnv []) 60 m0 = Ok mf.
+Proof.
+  exists (mkProg 64 [[0; 3; 11; 0; 0; 0; 68; 8]; [46]; [67; 2; 0; -1; 12; 0; 13; 0; 57]] [([119], 67)] [[118]] [] [] 16 16).
+  exists (mkM [] [0] [] [] [(0, 0)] [] [0] true 0).
+  exists (mkM [3] [0] [] [] [] [] [] true 0).
+  repeat split; vm_compute; reflexivity.
 Qed.
